@@ -48,6 +48,19 @@ def _value(r):
             v = _ambiguous_dt(r)
             if v:
                 return v, "datetime"
+        if r.random() < 0.15:
+            # straight from the class constructor: fields as given, not normalised
+            if r.random() < 0.5:
+                z = r.choice(gen_dt.DST_ZONES + gen_dt.MIDNIGHT_ZONES)
+                gaps = [(t, o0, o1) for t, o0, o1 in tzdb.transitions(z) if o1 > o0]
+                if gaps:
+                    t, o0, o1 = r.choice(gaps)
+                    w = tzdb.us_to_fields((t + o0) * US + r.randrange(0, (o1 - o0) * US))
+                    return {"$": "dt_ctor", "f": w, "tz": z, "fold": r.randrange(2)}, "datetime"
+            else:
+                inst = r.randrange(tzdb.year_start_us(1975), tzdb.year_start_us(2035))
+                off = r.choice([3600, -16200, 19800, 0])
+                return {"$": "dt_ctor", "f": tzdb.render(off, inst)[0], "tz": off, "fold": 1}, "datetime"
         zone = gen_dt.pick_zone(r, allow_naive=True)
         spec, _, _, _ = gen_dt.dt_value(r, zone=zone)
         return spec, "datetime"
